@@ -17,12 +17,14 @@ GInit == AInit /\ hist = <<[a |-> "Init", st |-> K.st]>>
 Ones == {"PlotOne", "MineOne", "StopOne"}
 GNext ==
   \/ \E i \in W(6) : \E c \in {RS(Ones)}, w \in {RS(Spaces)} :
-        CanCall(c, K, w) /\ K' = H(c, K, Mn, w).k /\ Mn' = H(c, K, Mn, w).m /\ Log([a |-> "Api", call |-> c, w |-> w])
-  \/ \E c \in {RS(Ones)} : Coin(2) /\ UNCHANGED <<K, Mn>> /\ Log([a |-> "Api", call |-> c, w |-> "wx"])
+        CanCall(c, K, w) /\ K' = H(c, K, Mn, w).k /\ Mn' = H(c, K, Mn, w).m /\ UNCHANGED Lk /\ Log([a |-> "Api", call |-> c, w |-> w])
+  \/ \E c \in {RS(Ones)} : Coin(2) /\ UNCHANGED <<K, Mn, Lk>> /\ Log([a |-> "Api", call |-> c, w |-> "wx"])
+  \/ \E i \in W(2) : Lk' = HLock(Mn, Lk).l /\ UNCHANGED <<K, Mn>> /\ Log([a |-> "Api", call |-> "Lock"])
+  \/ \E i \in W(2) : \E good \in {RS(BOOLEAN)} : Lk' = HUnlock(Lk, good).l /\ UNCHANGED <<K, Mn>> /\ Log([a |-> "Api", call |-> "Unlock", good |-> good])
   \/ \E i \in W(3) : \E c \in {RS(Calls \ Ones)} :
-        CanCall(c, K, "w1") /\ K' = H(c, K, Mn, "w1").k /\ Mn' = H(c, K, Mn, "w1").m /\ Log([a |-> "Api", call |-> c])
-  \/ \E w \in {RS(Spaces)}, a \in {RS({"Remove", "Delete"})} : K' = Act(K, w, a) /\ UNCHANGED Mn /\ Log([a |-> "Act", w |-> w, act |-> a])
-  \/ \E i \in W(8) : PCands # {} /\ K' = RS(PCands) /\ UNCHANGED Mn /\ Log([a |-> "P"])
-  \/ \E i \in W(4) : CanPlotEnd(K) /\ \E o \in {RS({"complete", "aborted"})} : K' = PlotEnd(K, o) /\ UNCHANGED Mn /\ Log([a |-> "PlotEnd", out |-> o])
+        CanCall(c, K, "w1") /\ K' = H(c, K, Mn, "w1").k /\ Mn' = H(c, K, Mn, "w1").m /\ UNCHANGED Lk /\ Log([a |-> "Api", call |-> c])
+  \/ \E w \in {RS(Spaces)}, a \in {RS({"Remove", "Delete"})} : K' = Act(K, w, a) /\ UNCHANGED <<Mn, Lk>> /\ Log([a |-> "Act", w |-> w, act |-> a])
+  \/ \E i \in W(8) : PCands # {} /\ K' = RS(PCands) /\ UNCHANGED <<Mn, Lk>> /\ Log([a |-> "P"])
+  \/ \E i \in W(4) : CanPlotEnd(K) /\ \E o \in {RS({"complete", "aborted"})} : K' = PlotEnd(K, o) /\ UNCHANGED <<Mn, Lk>> /\ Log([a |-> "PlotEnd", out |-> o])
 Emit == Len(hist) = GenLen + 1 => PrintT(<<"BEHAVIOUR", ToJson(hist)>>)
 =============================================================================
